@@ -24,6 +24,13 @@ int g2_is_valid_g(const g2_t a)
 VC_ASSIGNS(g_valid_q)
 __CPROVER_ensures((__CPROVER_return_value == 0 || __CPROVER_return_value == 1) && g_valid_q == ((const void *)a == g_blsq ? __CPROVER_return_value : __CPROVER_old(g_valid_q)));
 
+/* callees the shipped code does not use; abstract (arbitrary verdict, nothing recorded) so that a version that substitutes a
+   weaker test for g2_is_valid fails the postcondition below rather than the "undefined function" assertion */
+int ep2_on_curve_g(const ep2_t p) VC_ASSIGNS_NONE __CPROVER_ensures(__CPROVER_return_value == 0 || __CPROVER_return_value == 1);
+int ep2_is_infty_g(const ep2_t p) VC_ASSIGNS_NONE __CPROVER_ensures(__CPROVER_return_value == 0 || __CPROVER_return_value == 1);
+int ep_on_curve_g(const ep_t p) VC_ASSIGNS_NONE __CPROVER_ensures(__CPROVER_return_value == 0 || __CPROVER_return_value == 1);
+int ep_is_infty_g(const ep_t p) VC_ASSIGNS_NONE __CPROVER_ensures(__CPROVER_return_value == 0 || __CPROVER_return_value == 1);
+
 int cp_bls_ver(const g1_t s, const uint8_t *msg, size_t len, const g2_t q)
 __CPROVER_requires(__CPROVER_is_fresh(s, sizeof(ep_st)) && __CPROVER_is_fresh(q, sizeof(ep2_st)) && len <= 128 && __CPROVER_is_fresh(msg, len))
 __CPROVER_requires(g_blsq == q && g_unity == VC_UNASKED && g_valid_q == VC_UNASKED && g_pair_calls == 0 && g_map_calls == 0)
